@@ -261,9 +261,11 @@ def check(rep, tier, seed):
         rep.case(("history", h["pattern"], tuple(sorted(h["kinds"])), h["big"], heap))
         judge(rep, h, res, init)
         for p in procs:
-            for l in p.log_lines("HEAPCHECK-FAIL"):
+            fails = p.log_lines("HEAPCHECK-FAIL")
+            optxt = ops_text(h["ops"])[:3000] if fails else None
+            for l in fails:
                 rep.violation({"check": "heap-invariant", "mode": l.split()[1].replace("kind=", "")},
-                              {"line": l, "history": h["id"], "ops": ops_text(h["ops"])[:3000]})
+                              {"line": l, "history": h["id"], "ops": optxt})
             for d in p.log_kv("HEAPCHECK-SUMMARY"):
                 hc_runs += d.get("runs", 0)
                 hc_objs += d.get("objects", 0)
